@@ -294,6 +294,21 @@ def matmul_case(fn):
     if len(ifs) != len(MATMUL_BODIES):
         raise SiteError(f"matmul: {len(ifs)} returning if-statements (expected {len(MATMUL_BODIES)})")
     lines = ["def matmul_case(a_ndim, b_ndim, a_lead, b_lead):"]
+    # rejections in front of the strategies: `if <test>: raise ValueError(...)` (the hasattr TypeError guard is not
+    # about the scalar parameters and is skipped by its pinned text)
+    guards = []
+    for s in fn.body:
+        if s is ifs[0]:
+            break
+        if isinstance(s, ast.If) and len(s.body) == 1 and isinstance(s.body[0], ast.Raise) and not s.orelse:
+            if U(s.test) == "not hasattr(a, 'ndim') or not hasattr(b, 'ndim')":
+                continue
+            exc = s.body[0].exc
+            name = U(exc.func) if isinstance(exc, ast.Call) else U(exc)
+            if name != "ValueError":
+                raise SiteError(f"matmul: guard `{U(s.test)}` raises {name}")
+            guards.append(U(s.test))
+            lines.append(f"    if {U(s.test)}:\n        raise ValueError")
     for k, (s, (test, body)) in enumerate(zip(ifs, MATMUL_BODIES, strict=True), 1):
         got = "\n".join(U(x) for x in s.body)
         if got != body or s.orelse:
@@ -311,7 +326,7 @@ def matmul_case(fn):
         coq, h = py2v.translate_fragment(src, spec, {})
     except py2v.Unsupported as ex:
         raise SiteError(f"matmul: {ex}") from ex
-    return coq, [U(s.test) for s in ifs]
+    return coq, guards + [U(s.test) for s in ifs]
 
 
 # ---------------------------------------------------------------------------- 3. tensordot shortcut
